@@ -315,7 +315,7 @@ type session struct {
 	// onDisk: serve the input from a real temp file instead of the in-memory FS
 	onDisk bool
 	// emitOnly: evaluate everything (the history matters) but write only this path's case lines
-	emitOnly string
+	emitOnly map[string]bool
 }
 
 var sess *session
@@ -652,7 +652,7 @@ func (s *session) finish() {
 	if r == nil {
 		return
 	}
-	if s.emitOnly != "" && r.path != s.emitOnly {
+	if s.emitOnly != nil && !s.emitOnly[r.path] {
 		return
 	}
 	fl := s.flags(r)
@@ -874,6 +874,10 @@ func planFor(rc *rec, r *hlib.Rand, level int, cli string) ([]opDesc, bool) {
 }
 
 func planBase(rc *rec, r *hlib.Rand, level int) ([]opDesc, bool) {
+	if rc.length > 8*256*1024 {
+		// very large (the root of an input larger than the read-ahead window): digest only
+		return []opDesc{{"rfmt8:md5:10"}}, false
+	}
 	full := level == 2
 	big := rc.length > 32768
 	var ops []opDesc
@@ -924,11 +928,12 @@ type inputFile struct {
 	rel    string // relative to the repo root
 	format string
 	opts   string // the `-o k=v` options of the fqtest line, comma separated ("-" = none)
+	big    bool   // larger than the 512 KiB read-ahead window of `open` (thorough tier; served from a real file)
 }
 
 // collectInputs finds (format, file) pairs from the `$ fq … -d FORMAT … FILE` lines of the
 // .fqtest files next to each testdata file; files mentioned without -d are probed.
-func collectInputs(repo string) []inputFile {
+func collectInputs(repo string, withBig bool) []inputFile {
 	seen := map[string]bool{}
 	var res []inputFile
 	_ = filepath.Walk(filepath.Join(repo, "format"), func(p string, info os.FileInfo, err error) error {
@@ -950,7 +955,11 @@ func collectInputs(repo string) []inputFile {
 			fn := strings.TrimPrefix(ws[len(ws)-1], "/")
 			fp := filepath.Join(filepath.Dir(p), fn)
 			st, err := os.Stat(fp)
-			if err != nil || st.IsDir() || st.Size() > 64*1024 || st.Size() == 0 || strings.HasSuffix(fp, ".fqtest") {
+			if err != nil || st.IsDir() || st.Size() == 0 || strings.HasSuffix(fp, ".fqtest") {
+				continue
+			}
+			big := st.Size() > 512*1024 && st.Size() <= 4*1024*1024 && withBig
+			if st.Size() > 64*1024 && !big {
 				continue
 			}
 			format := "probe"
@@ -976,7 +985,7 @@ func collectInputs(repo string) []inputFile {
 				continue
 			}
 			seen[key] = true
-			res = append(res, inputFile{rel: rel, format: format, opts: optS})
+			res = append(res, inputFile{rel: rel, format: format, opts: optS, big: big})
 		}
 		return nil
 	})
@@ -1009,7 +1018,7 @@ func runFile(o *hlib.Out, r *hlib.Rand, repo string, in inputFile, bud fileBudge
 	fname := filepath.Base(in.rel)
 	// pass 1: collect all values
 	var all []*rec
-	s1 := &session{o: o, src: src, fileBytes: data, planFn: func(rc *rec) ([]opDesc, bool, bool) {
+	s1 := &session{o: o, src: src, fileBytes: data, onDisk: len(data) > 512*1024, planFn: func(rc *rec) ([]opDesc, bool, bool) {
 		all = append(all, rc)
 		return nil, false, false
 	}}
@@ -1105,7 +1114,7 @@ func runFile(o *hlib.Out, r *hlib.Rand, repo string, in inputFile, bud fileBudge
 			take(rc)
 		}
 	}
-	s2 := &session{o: o, src: src, fileBytes: data, planFn: func(rc *rec) ([]opDesc, bool, bool) {
+	s2 := &session{o: o, src: src, fileBytes: data, onDisk: len(data) > 512*1024, planFn: func(rc *rec) ([]opDesc, bool, bool) {
 		ops, ok := sel[rc.path]
 		if !ok {
 			return nil, false, false
@@ -1185,6 +1194,7 @@ func main() {
 				replaySyn(o, r, ps[1], ps[2], path, ops)
 			}
 		}
+		flushHugeReplays(o)
 		return
 	}
 
@@ -1192,7 +1202,7 @@ func main() {
 		runSynthetic(o, r, cfg.Thorough())
 	}
 	if mode == "all" || mode == "files" {
-		inputs := collectInputs(repo)
+		inputs := collectInputs(repo, cfg.Thorough())
 		o.Stat("inputs_available", len(inputs))
 		// per-format cap so that wasm/tzif (≈ 1900 tiny files) do not crowd out the rest
 		perFormat, bud := 2, fileBudget{maxAgg: 3, maxValues: 80, maxBytes: 128 * 1024, capPerClass: 28}
@@ -1210,8 +1220,11 @@ func main() {
 			if len(dir) > 1 {
 				key = dir[1] + "/" + in.format
 			}
-			if used[key] >= perFormat {
+			if used[key] >= perFormat && !in.big {
 				continue
+			}
+			if in.big {
+				o.Stat("files_larger_than_readahead_window", 1)
 			}
 			used[key]++
 			t0 := time.Now()
